@@ -10,7 +10,7 @@ import common
 from common import Outcome, frac_str, classify_exc
 
 NAMES = ['plain', 'a: b', 'say "hi"', '{curly} {{x}}', '<b>bold</b>', 'cost $5 $name ${x}', 'id_7, 01.01.2024 00:00', 'ünï ✓', "it's", 'a --> b', 'x}} --> 7{{y', 'semi;colon', '</script>', '%d', '\\n back\\slash']
-NOW = datetime(2024, 3, 1, 12, 0)
+NOW = datetime(2024, 1, 16, 12, 0)      # in the middle of the generated dates: finished, running and future tasks all occur
 
 
 class FakeDT(_dt.datetime):
@@ -36,8 +36,8 @@ def random_case(prop, rng, tier):
         if not braces and ('{' in nm or '}' in nm):
             nm = 'plain' + str(i)
         t = {'id': rng.choice([i + 1, 100 + i, -i - 1]), 'parent': rng.randrange(i) if i and rng.random() < 0.5 else None, 'name': nm,
-             'start': s * 6, 'dur': rng.randrange(0, 200), 'milestone': rng.random() < 0.15, 'estimate': rng.choice([0, 3, 8, 2.5]),
-             'spent': rng.choice([None, 0, 1, 10]), 'section': rng.choice([None, None, 'S1', 'Sec two']) if rng.random() < 0.5 else None,
+             'start': s * 6, 'dur': rng.randrange(0, 200), 'milestone': rng.random() < 0.15, 'estimate': rng.choice([0, 2, 8, 4, 0.5]),       # powers of two: spent / estimate is exact in floating point
+             'spent': rng.choice([None, 0, 1, 10, 3, 0.25]), 'section': rng.choice([None, None, 'S1', 'Sec two']) if rng.random() < 0.5 else None,
              'bar': rng.random() < 0.2, 'net': rng.random() < 0.2}
         tasks.append(t)
     ids = set()
